@@ -164,6 +164,10 @@ def judge(case, obs, resps):
     stream = case.get("_meta", {}).get("stream", "-")
     if not isinstance(obs, dict) or "harness_exception" in obs:
         return Judgement(case, True, False, {"infrastructure": obs}, kind="infra", nontrivial=False)
+    if "unobservable" in obs:
+        # engine internals (Jinja environment / access check of the python helper) not found under a recognisable
+        # name or type: the direct access / join cases say nothing; the history cases decide the property
+        return Judgement(case, True, True, None, kind=f"{kind}/unobservable", nontrivial=False)
     bad = [r for r in resps if "ok" not in r]
     if bad or not resps:
         return Judgement(case, True, False, {"infrastructure": {"driver": bad[:1] or "no response"}}, kind="infra",
